@@ -36,7 +36,7 @@ Init == /\ l = 1 /\ tid = -1 /\ cfg = NoCfg /\ got = <<>> /\ first = <<>> /\ ini
         /\ crashed = FALSE /\ drift = "" /\ viol = {}
 
 Nodes == Rng(cfg.ids)
-Faulty == cfg.byz \/ cfg.fault.silent_peer # 0 \/ cfg.fault.withhold_idx >= 0
+Faulty == cfg.byz \/ cfg.fault.silent_peer # 0 \/ cfg.fault.withhold_idx >= 0 \/ "stall" \in DOMAIN cfg
 
 SetDrift(d) == drift' = IF drift = "" /\ d # "" THEN d \o " @line " \o ToString(l) ELSE drift
 Check(ms) ==
